@@ -36,6 +36,15 @@ type TypeX struct {
 	Src   string // source text
 	Under *TypeX // named
 	Bytes bool   // slice of bytes ([]byte / []uint8)
+	Alias string // name of an alias declaration `type A = <Src>` through which the field is declared (identical type)
+}
+
+// DeclSrc is the type text written in the field declaration (the alias name when the field is declared through one).
+func (t *TypeX) DeclSrc() string {
+	if t.Alias != "" {
+		return t.Alias
+	}
+	return t.Src
 }
 
 func (t *TypeX) Underlying() *TypeX {
@@ -64,7 +73,8 @@ type Field struct {
 	Type    *TypeX   // nil for nested
 	Nested  []*Field // anonymous struct
 	Markers []Marker
-	Extra   []string // extra (non-marker) comment lines in the doc group
+	Extra   []string // extra (non-marker) comment lines in the doc group, before the markers
+	After   []string // extra (non-marker) comment lines in the doc group, after the markers
 	Embed   bool     // embedded field: rendered without a name (Names holds the type name it is selected by)
 }
 
@@ -75,12 +85,14 @@ type Decl struct {
 	Group    string   // "" or a group id: consecutive decls with the same id are rendered inside one `type ( … )`
 	GroupDoc []Marker // markers on the GenDecl of the group (apply to every spec); the decl's own Markers sit on its spec
 	PreSpec  string   // a non-struct spec rendered before this decl inside the group, e.g. "N7 int"
+	After    []string // prose comment lines of the doc comment written after the struct-level markers
 }
 
 type NamedDecl struct{ Name, Src string }
 
 type Scenario struct {
 	ID     string
+	Pre    *Scenario // history: an earlier version of the package, generated in the same directory first
 	Named  []NamedDecl
 	Decls  []*Decl
 	Values map[string][]*SVal // decl name → struct values
@@ -94,13 +106,16 @@ func hexs(s string) string {
 	return hex.EncodeToString([]byte(s))
 }
 
-func docSexp(ms []Marker, extra []string) string {
+func docSexp(ms []Marker, extra []string, after ...string) string {
 	parts := []string{"doc"}
 	for _, e := range extra {
 		parts = append(parts, hexs(e))
 	}
 	for _, m := range ms {
 		parts = append(parts, hexs(m.Comment()))
+	}
+	for _, e := range after {
+		parts = append(parts, hexs(e))
 	}
 	return "(" + strings.Join(parts, " ") + ")"
 }
@@ -116,9 +131,9 @@ func (f *Field) Sexp() string {
 		for _, g := range f.Nested {
 			fs = append(fs, g.Sexp())
 		}
-		return "(nest " + names + " " + docSexp(f.Markers, f.Extra) + " " + strings.Join(fs, " ") + ")"
+		return "(nest " + names + " " + docSexp(f.Markers, f.Extra, f.After...) + " " + strings.Join(fs, " ") + ")"
 	}
-	return "(leaf " + names + " " + f.Type.Sexp() + " " + docSexp(f.Markers, f.Extra) + ")"
+	return "(leaf " + names + " " + f.Type.Sexp() + " " + docSexp(f.Markers, f.Extra, f.After...) + ")"
 }
 
 func (d *Decl) Sexp() string {
@@ -127,7 +142,7 @@ func (d *Decl) Sexp() string {
 		fs = append(fs, f.Sexp())
 	}
 	all := append(append([]Marker{}, d.GroupDoc...), d.Markers...)
-	return "(decl " + d.Name + " " + docSexp(all, nil) + " " + strings.Join(fs, " ") + ")"
+	return "(decl " + d.Name + " " + docSexp(all, nil, d.After...) + " " + strings.Join(fs, " ") + ")"
 }
 
 func writeFields(sb *strings.Builder, fs []*Field, indent string) {
@@ -138,15 +153,18 @@ func writeFields(sb *strings.Builder, fs []*Field, indent string) {
 		for _, m := range f.Markers {
 			sb.WriteString(indent + m.Comment() + "\n")
 		}
+		for _, e := range f.After {
+			sb.WriteString(indent + e + "\n")
+		}
 		if f.Nested != nil {
 			sb.WriteString(indent + strings.Join(f.Names, ", ") + " struct {\n")
 			writeFields(sb, f.Nested, indent+"\t")
 			sb.WriteString(indent + "}\n\n")
 		} else {
 			if f.Embed {
-				sb.WriteString(indent + f.Type.Src + "\n\n")
+				sb.WriteString(indent + f.Type.DeclSrc() + "\n\n")
 			} else {
-				sb.WriteString(indent + strings.Join(f.Names, ", ") + " " + f.Type.Src + "\n\n")
+				sb.WriteString(indent + strings.Join(f.Names, ", ") + " " + f.Type.DeclSrc() + "\n\n")
 			}
 		}
 	}
@@ -163,6 +181,9 @@ func (s *Scenario) Source(pkg string) string {
 		if d.Group == "" {
 			for _, m := range d.Markers {
 				sb.WriteString(m.Comment() + "\n")
+			}
+			for _, e := range d.After {
+				sb.WriteString(e + "\n")
 			}
 			sb.WriteString("type " + d.Name + " struct {\n")
 			writeFields(&sb, d.Fields, "\t")
@@ -181,6 +202,9 @@ func (s *Scenario) Source(pkg string) string {
 			}
 			for _, m := range g.Markers {
 				sb.WriteString("\t" + m.Comment() + "\n")
+			}
+			for _, e := range g.After {
+				sb.WriteString("\t" + e + "\n")
 			}
 			sb.WriteString("\t" + g.Name + " struct {\n")
 			writeFields(&sb, g.Fields, "\t\t")
